@@ -226,7 +226,81 @@ fn explain(ctx: &Ctx, typed: &str, c: &Cand) -> Result<&'static str, String> {
     Err(format!("candidate {:?} is not explained by the definition", s))
 }
 
+/// `image` / `images`, `--release` / `--release-lto` as alternatives: a name typed exactly is also
+/// a freshly typed prefix of the longer sibling, which has to be offered too
+fn exact_name_is_prefix_of_sibling(case: &mut Case) {
+    let mut rng = case.rng(7);
+    let commands = rng.chance(1, 2);
+    let (short_name, long_name) = if commands {
+        ("image", "images")
+    } else {
+        ("release", "release-lto")
+    };
+    let branch = |id: Id, name: &str| -> Spec {
+        if commands {
+            let mut opts = OptSpec::plain(Spec::Seq(vec![Spec::Item(Item {
+                id: id + 1,
+                names: Names::long("force"),
+                help: None,
+                leaf: Leaf::Switch,
+            })]));
+            opts.descr = Some(format!("D{}-descr", id));
+            Spec::Cmd(Box::new(CmdSpec {
+                id,
+                names: vec![name.to_string()],
+                shorts: vec![],
+                help: None,
+                adjacent: false,
+                opts,
+            }))
+        } else {
+            Spec::Item(Item {
+                id,
+                names: Names::long(name),
+                help: None,
+                leaf: Leaf::ReqFlag,
+            })
+        }
+    };
+    let (a, b2) = (branch(10, short_name), branch(20, long_name));
+    let alts = if rng.chance(1, 2) { vec![a, b2] } else { vec![b2, a] };
+    let b = Bench::new(case, OptSpec::plain(Spec::Seq(vec![Spec::Alt(alts)])));
+    let typed = if commands {
+        short_name.to_string()
+    } else {
+        format!("--{}", short_name)
+    };
+    let want = if commands {
+        long_name.to_string()
+    } else {
+        format!("--{}", long_name)
+    };
+    let argv = vec![typed.clone().into_bytes()];
+    let out = super::comp::complete(&b.parser, &argv, 0, None, fuel_for(&b.spec, &argv));
+    case.rep.count("class:exact-name-is-prefix-of-sibling");
+    if let Outcome::Completion(text) = &out {
+        let r = super::comp::parse_rev0(text);
+        let offered = r.items.iter().any(|c| c.subst == want)
+            || r.echo.as_deref() == Some(want.as_str());
+        if !offered {
+            case.rep.violation(
+                "visible-name-not-offered:exact-name-is-prefix-of-sibling",
+                "completeness",
+                case.index,
+                case_json(&b.spec, &argv)
+                    .set("typed", typed.as_str())
+                    .set("expected_candidate", want.as_str())
+                    .set("completion", crate::outcome::clip(text)),
+            );
+        }
+    }
+}
+
 pub fn run_case(case: &mut Case) {
+    if case.index % 32 == 17 {
+        exact_name_is_prefix_of_sibling(case);
+        return;
+    }
     let mut rng = case.rng(0);
     let spec = {
         let o = opts();
